@@ -315,9 +315,15 @@ def _run_base(ctx):
         gen = cpr.value.generators[0]
         ok = dotted(gen.iter) == hv and not gen.ifs
         guards = cond_guards(g, cpr)
-        ok = ok and any(pol and 'base_url' in names_in(t) for t, pol in guards)
+        mdefs = local_defs(ma)
+        # the base URL: the parameter, or the local popped from the params under the key 'base_url'
+        base_names = {'base_url'} | {nm for nm, ds in mdefs.items() for v, k, st_ in ds
+                                     if any(isinstance(x, ast.Constant) and x.value == 'base_url' for x in ast.walk(v))}
+        ok = ok and any(pol and (base_names & names_in(t)) for t, pol in guards)
         elt = cpr.value.elt
-        ok = ok and isinstance(elt, ast.Tuple) and isinstance(elt.elts[0], ast.BinOp) and 'prefix' in names_in(elt.elts[0])
+        # the first element of each re-created route is <prefix> + <old pattern>: the prefix is a local derived from the base URL
+        prefix_names = {nm for nm, ds in mdefs.items() for v, k, st_ in ds if k == 'assign' and (base_names & names_in(v))} | base_names
+        ok = ok and isinstance(elt, ast.Tuple) and isinstance(elt.elts[0], ast.BinOp) and bool(prefix_names & names_in(elt.elts[0]))
         why = 'every route (no filter) is re-created with the prefix when base_url != "/"' if ok else \
             'the prefix is not applied to every route'
     ctx.inst('R20.5', SRV + ':make_app', repo.norm(comps[0]) if comps else '<none>', ok, why, comps[0] if comps else ma)
